@@ -7,7 +7,9 @@ from harness import core, ir, r1cs, opgrid, env, refsem
 
 RULE = ("(a) single operations: every value-returning operator x operand-type combination (secret/secret, "
         "secret/constant, constant/secret) x a complete pool of operand values at (p=67,b=2) and (p=257,b=3) [thorough: "
-        "also (1031,4) and real fields]; (b) compositions: generated programs of 2-5 operations in small fields. The "
+        "also (1031,4) and real fields]; (b) compositions: generated programs of 2-5 operations in small fields; (c) histories: every "
+        "operation executed under a false guard and then again at top level on the same operand objects - the second "
+        "result must be forced by unit propagation or survive a sampled search. The "
         "honest run is recorded; the constant-one wire and the input wires are pinned, every other variable is freed and "
         "ALL satisfying assignments are enumerated (unit propagation + branching over all of F_p: complete for the "
         "instance in small fields; candidate-set branching in real fields = heuristic). Oracle: in every satisfying "
@@ -29,13 +31,18 @@ def result_leaves(m, skip=0):
     return out
 
 
-def k_shaped(asg, p, loose_var=None):
+def k_shaped(asg, p, honest=None, loose_var=None):
     """Is this differing assignment exactly of the form the listed findings allow?  K2: every integer
     divmod call still satisfies q'*d + r' = a with 0 <= r' < d (only the missing range check on q is
-    used); K1: the only unconstrained variable in the result is the output of a bitwise-with-constant."""
+    used); K1: the output of a bitwise-with-constant is a free variable. A differing assignment is shaped
+    if all divmod calls are of that form and at least one K1 output / K2 quotient differs from its honest
+    value (what else may differ is decided by the second stage: pinning those variables)."""
     if loose_var is not None:
         return loose_var in env.k1_results
-    if not env.k2_calls:
+    kvars = list(env.k1_results) + list(env.k2_quotients)
+    if not kvars:
+        return False
+    if honest is not None and not any(asg.get(v, 0) % p != honest[v] % p for v in kvars):
         return False
     ev = lambda d: sum(c * asg.get(v, 0) for v, c in d.items()) % p
     for ql, rl, al, dl in env.k2_calls:
@@ -72,7 +79,7 @@ def analyse(m, nargs, budget=30000, limit=400, candidates=None, pin=(), allow_sh
             for (path, d, t), h in zip(leaves, honest):
                 loose = [v for v, c in d.items() if v in dc and c % p]
                 if loose:
-                    if allow_shaped and all(k_shaped(full, p, lv) for lv in loose):
+                    if allow_shaped and all(k_shaped(full, p, None, lv) for lv in loose):
                         shaped += 1
                         continue
                     full[loose[0]] = 1
@@ -83,7 +90,7 @@ def analyse(m, nargs, budget=30000, limit=400, candidates=None, pin=(), allow_sh
                                                         "assignment": {str(k): v for k, v in alt.items()}, "unconstrained": True}
                 val = sum(c * full[v] for v, c in d.items()) % p
                 if val != h:
-                    if allow_shaped and k_shaped(full, p):
+                    if allow_shaped and k_shaped(full, p, rec.vals):
                         shaped += 1
                         break
                     if not r1cs.verify(rec.cons, p, full):
@@ -196,6 +203,99 @@ def grid_shard(cells, b, p, pool_extra=1, budget=30000):
     return stats
 
 
+def history_case(cfg, name, args):
+    """The operation is first executed under a FALSE guard and then again, on the same operand objects,
+    at top level. The second result must still be uniquely determined by the inputs (anything remembered
+    from the first, inert execution is unconstrained). Returns (status, message or None, program)."""
+    prog = opgrid.single(cfg, name, args, "guard0")
+    n = len(args)
+    prog["stmts"].append(["op", name, list(range(n))])
+    k = [0]
+
+    def after(m, s, out):
+        if s is not prog["stmts"][-1]:
+            k[0] = len(m.vals)
+    m = ir.run_program(prog, after=after)
+    if m.raised is not None:
+        return "raised", None, prog
+    if env.k1_results or env.k2_quotients:
+        return "known-family", None, prog
+    rec = m.ns.rec
+    p = rec.P
+    leaves = result_leaves(m, k[0])
+    if not leaves:
+        return "no-secret-result", None, prog
+    honest = [r1cs.lc_value(d, rec.vals, p) for _, d, _ in leaves]
+    fixed = {0: 1}
+    for v in m.input_vars:
+        fixed[v] = rec.vals[v] % p
+    f = r1cs.forced(rec.cons, p, fixed)
+    if f is None:
+        raise core.HarnessError("propagation contradicts the honest witness")
+    if all(v in f for _, d, _ in leaves for v in d):
+        for (path, d, t), h in zip(leaves, honest):
+            if sum(c * f[v] for v, c in d.items()) % p != h:
+                return "counterexample", "result %s forced to another value than the honest one" % path, prog
+        return "forced", None, prog
+    free = [v for v in range(1, len(rec.vals)) if v not in fixed]
+    hv = rec.vals
+    srch = r1cs.Search(rec.cons, p, fixed, free, budget=4000, small_limit=0,
+                       candidates=lambda v: [0, 1, hv[v], hv[v] + 1, 1 - hv[v], p - 1])
+    try:
+        for asg, dc in srch.solutions():
+            full = dict(asg)
+            for v in dc:
+                full[v] = 0
+            for (path, d, t), h in zip(leaves, honest):
+                loose = [v for v, c in d.items() if v in dc and c % p]
+                val = sum(c * full[v] for v, c in d.items()) % p
+                if loose or val != h:
+                    if loose:
+                        full[loose[0]] = 1
+                    if not r1cs.verify(rec.cons, p, full):
+                        raise core.HarnessError("search produced a non-solution")
+                    return "counterexample", ("%s%r executed under a false guard and then again at top level on the same operands: "
+                                              "the second result %s is %d honestly but the constraints also admit %d" % (
+                                                  name, tuple(a[2] for a in args), path, ir.centered(h, p),
+                                                  ir.centered(sum(c * full[v] for v, c in d.items()) % p, p))), prog
+    except r1cs.Budget:
+        return "budget", None, prog
+    return "sampled", None, prog
+
+
+def history_shard(cells, b, p):
+    stats = core.Stats()
+    found = {}
+    lim = 1 << b
+    cfg = {"p": p, "b": b, "r": 1, "ignore": False}
+    ipool = [-1, 0, 1, 2, lim - 1]
+    for name, ts in cells:
+        op = ir.OPS[name]
+        pools = []
+        for pos, t in enumerate(ts):
+            if pos in op.params:
+                pools.append([1, b])
+            elif t in "Bb":
+                pools.append([0, 1])
+            elif t == "f":
+                pools.append([["f", 3, 2]])
+            else:
+                pools.append(ipool)
+        for vals in itertools.product(*pools):
+            args = [(t, "priv", v) for t, v in zip(ts, vals)]
+            status, msg, prog = history_case(cfg, name, args)
+            if status == "budget":
+                stats.inconclusive["history-budget"] += 1
+            stats.case([name, ts, [str(v) for v in vals], "false-guard-then-top"], status in ("forced", "sampled", "counterexample"),
+                       ("history:" + status,), sample_cap=1)
+            if msg:
+                key = "%s.%s.history" % (name, ts)
+                if key not in found:
+                    found[key] = {"case": dict(prog, history=True), "msg": msg, "key": key}
+    stats.violations = list(found.values())
+    return stats
+
+
 def compose_shard(seed, n_examples, budget=40000):
     stats = core.Stats()
     known = core.load_known("C02")
@@ -238,6 +338,13 @@ def compose_shard(seed, n_examples, budget=40000):
 
 
 def replay(case):
+    if case.get("history"):
+        stmts = case["stmts"]
+        n = len(stmts[-1][2])
+        args = []
+        for st_ in stmts[:n]:
+            args.append((st_[2], st_[1], st_[3]) if st_[0] == "in" else ("f" if isinstance(st_[1], list) else "b" if isinstance(st_[1], bool) else "i", None, st_[1]))
+        return history_case(case["cfg"], stmts[-1][1], args)[1]
     m = ir.run_program(case)
     if m.raised is not None:
         return None
@@ -284,6 +391,9 @@ def run(ctx):
     for g in grids:
         total.merge_json(core.run_shards("harness.checks.c02", "grid_shard",
                                          [dict(cells=cs[i::16], **g) for i in range(16)]).to_json())
+    hb, hp = (2, 67) if ctx.tier == "quick" else (3, 257)
+    total.merge_json(core.run_shards("harness.checks.c02", "history_shard",
+                                     [dict(cells=cs[i::16], b=hb, p=hp) for i in range(16)]).to_json())
     total.merge_json(core.run_shards("harness.checks.c02", "compose_shard", comp).to_json())
     total.extra["grids"] = grids
     total.extra["cells"] = len(cs)
